@@ -285,6 +285,8 @@ type JRand struct {
 	Fresh []int
 	// TagOverride, if non-empty, supplies successive outputs for instance tag reads.
 	TagOverride [][]byte
+	// SMPVals are the values handed out to the SMP code (its secret exponents), in order
+	SMPVals [][]byte
 	// ShortDH makes every DH exponent one whose public value has a leading zero byte (about one in
 	// 256 honest values): integers travel in minimal form and must still be read back as the same value
 	ShortDH bool
@@ -370,6 +372,12 @@ func (r *JRand) Read(b []byte) (int, error) {
 		}
 	}
 	rr := RandRead{N: n, Len: len(b), Class: class}
+	if class == "smp" && len(b) >= 16 {
+		r.SMPVals = append(r.SMPVals, append([]byte{}, b...))
+		if len(r.SMPVals) > 64 {
+			r.SMPVals = r.SMPVals[len(r.SMPVals)-64:]
+		}
+	}
 	switch {
 	case len(b) == 40 && (class == "commit" || class == "dhkey" || class == "ratchet"):
 		s := r.Reg.AddSecret(r.Owner, b, b)
